@@ -163,7 +163,7 @@ def run(tier):
     # same exported set must leave the same bytes (Trace_Confluence.tla)
     import exportchecks
     ostats = {}
-    ores = exportchecks.run_slice("samefile", tier, ostats)
+    ores = exportchecks.run_slice("samefile", tier, ostats) + exportchecks.run_slice("samefile_abs", tier, ostats)
     for r_ in ores:
         for b in r_["bad"]:
             if b["tag"] == "confluence":
